@@ -37,8 +37,8 @@ def H(i):
     return {"op": "hb", "i": B(i)}
 
 
-def R(u, i, used=1, lvl=50, wc=False):
-    return {"op": "report", "u": B(u), "i": B(i), "used": used, "lvl": lvl, "wc": wc}
+def R(u, i, used=1, lvl=50, wc=False, sat=False):
+    return {"op": "report", "u": B(u), "i": B(i), "used": used, "lvl": lvl, "wc": wc, "sat": sat}
 
 
 def GONE(u):
@@ -61,8 +61,36 @@ TT = {"op": "ticktimeout"}
 TU = {"op": "tickunknown"}
 
 
-def case(ops, ups=(b"a", b"b"), cmax=10):
-    return {"ups": [B(u) for u in ups], "cmax": cmax, "amax": 1000, "ops": ops}
+def case(ops, ups=(b"a", b"b"), cmax=10, amax=1000):
+    return {"ups": [B(u) for u in ups], "cmax": cmax, "amax": amax, "ops": ops}
+
+
+def saturated(insts, dead, rounds, after, amax, wc, ups=(b"a",), tick_every=3, newcomer=None):
+    """Steady saturated reporters: every instance uses all of its quota and reports the same usage every
+    round until the limit is fully handed out; the instances in [dead] go silent and are reclaimed by both
+    passes; the survivors keep reporting the same usage for [after] rounds."""
+    ops = []
+    for r in range(rounds):
+        for i in insts:
+            ops.append(H(i))
+            for u in ups:
+                ops.append(R(u, i, wc=wc, sat=True))
+        ops.append(ADV(1000))
+        if r % tick_every == tick_every - 1:
+            ops.append(TT)
+    live = [i for i in insts if i not in dead]
+    ops += [ADV(1000)] + [H(i) for i in live] + [ADV(1000)] + [H(i) for i in live] + [ADV(1500)] + [H(i) for i in live] + [TT, TU]
+    for r in range(after):
+        for i in live:
+            ops.append(H(i))
+            for u in ups:
+                ops.append(R(u, i, wc=wc, sat=True))
+        ops.append(ADV(1000))
+        if r == 1:
+            ops.append(TT)
+    if newcomer:
+        ops += [H(newcomer)] + [R(u, newcomer, wc=wc, sat=True) for u in ups]
+    return case(ops, ups, 10, amax)
 
 
 def corpus():
@@ -87,6 +115,11 @@ def corpus():
     # count limit: refused increases, lowering, exactly at the limit; unknown upstream
     cs.append(case([H(b"g1"), H(b"g2"), A(b"a", b"g1", 6), A(b"a", b"g2", 5), A(b"a", b"g2", 4), A(b"a", b"g1", 7), A(b"a", b"g1", 0),
                     A(b"c", b"g1", 1), R(b"c", b"g1"), ADV(3200), TT, A(b"a", b"g3", 10)]))
+    # steady saturated reporters, limit fully handed out, one goes silent and is reclaimed: the FIRST report of
+    # a survivor afterwards must record the allocated sum without the dead instance (and the count-item sum too)
+    cs.append(saturated([b"g1", b"g2"], [b"g2"], 11, 4, 1000, False))
+    cs.append(saturated([b"g1", b"g2", b"g3"], [b"g2"], 12, 3, 20, True, ups=(b"a", b"b"), newcomer=b"g-4"))
+    cs.append(saturated([b"g1", b"g2", b"g3"], [b"g1", b"g3"], 12, 3, 100, True))
     # upstream removed from the lister without the handler running: the unknown-condition pass deletes it as
     # a whole (also the state of live instances of that upstream), the other upstream is untouched; re-added later
     cs.append(case([H(b"g1"), H(b"g2"), R(b"a", b"g1", wc=True), R(b"b", b"g1", wc=True), R(b"a", b"g2"), A(b"a", b"g1", 3), A(b"b", b"g1", 2),
@@ -179,9 +212,24 @@ def gen_hist(rng, boundary=False):
     return case(ops, ups, cmax)
 
 
+def gen_saturated(rng):
+    n = rng.randint(2, 3)
+    insts = rng.sample(INST, n)
+    dead = rng.sample(insts, rng.randint(1, n - 1))
+    ups = (b"a",) if rng.chance(2, 3) else (b"a", b"b")
+    return saturated(insts, dead, rng.randint(9, 12), rng.randint(1, 4), rng.choice([20, 100, 1000]), rng.chance(1, 2),
+                     ups=ups, tick_every=rng.randint(2, 4), newcomer=(b"g-5" if rng.chance(1, 3) else None))
+
+
 def generate(rng, tier, scale=1):
     k = (150 if tier == "quick" else 2500) * scale
-    return [gen_hist(rng, boundary=(j % 8 == 7)) for j in range(k)]
+    out = []
+    for j in range(k):
+        if j % 6 == 5:
+            out.append(gen_saturated(rng))       # steady saturated reporters around a reclamation
+        else:
+            out.append(gen_hist(rng, boundary=(j % 8 == 7)))
+    return out
 
 
 HARNESS_CHUNK = 25
@@ -259,6 +307,8 @@ def stats(case, obs):
     if not steps:
         return ["panic"]
     labs = ["hist:len<=%d" % (20 * ((len(case["ops"]) + 19) // 20)), "ups=%d" % len(case["ups"])]
+    if any(o.get("sat") for o in case["ops"]):
+        labs.append("pattern:saturated-steady-reporters")
     prev = None
     for o, s in zip(case["ops"], steps):
         labs.append("op:%s->%s" % (o["op"], s["res"] if s["res"] != "acc" else ("acc" if s.get("acc") else "refused")))
